@@ -10,6 +10,7 @@ use crate::{
     codec::*,
     core::{
         base_types::NonZero,
+        error::{CodecError, InvalidPacketHeader},
         properties::ReceiveMaximum,
         utils::{ByteLen, Encode, PacketID, SizedPacket},
     },
@@ -464,9 +465,7 @@ where
                 Ok(Left(ConnectRsp::try_from(connack)?))
             }
             RxPacket::Auth(auth) => Ok(Right(AuthRsp::try_from(auth)?)),
-            _ => {
-                unreachable!("Unexpected packet type.");
-            }
+            _ => Err(CodecError::from(InvalidPacketHeader).into()), // Unexpected packet type.
         }
     }
 
@@ -512,9 +511,7 @@ where
                 Ok(Left(ConnectRsp::try_from(connack)?))
             }
             RxPacket::Auth(auth) => Ok(Right(AuthRsp::try_from(auth)?)),
-            _ => {
-                unreachable!("Unexpected packet type.");
-            }
+            _ => Err(CodecError::from(InvalidPacketHeader).into()), // Unexpected packet type.
         }
     }
 
